@@ -629,5 +629,12 @@ def _flatten_targets(t: ast.expr, value: ast.expr | None) -> list[tuple[ast.expr
     return [(t, value)]
 
 
-def load_program(overlay: dict[str, str] | None = None) -> Program:
-    return Program(parse_sources(load_sources(overlay=overlay)))
+def load_program(overlay: dict[str, str] | None = None, canonical: bool = True) -> Program:
+    mods = parse_sources(load_sources(overlay=overlay))
+    report: dict = {}
+    if canonical:
+        from .align import canonicalise
+        report = canonicalise(mods)
+    prog = Program(mods)
+    prog.alignment = report
+    return prog
